@@ -186,15 +186,31 @@ Definition next_views (o : op) (views : list bool) (cols : ctable) : list bool :
   | _ => map (fun _ => false) cols
   end.
 Definition is_err (o : obs) : bool := match o with OErrO => true | _ => false end.
-Fixpoint lazy_pred (views : list bool) (p : list op) (os : list obs) : list bool :=
+(* a sort_by that raises because its key is a List[int] column (np.argsort has no implementation for a RaggedArray)
+   has nevertheless flattened that one column of its operand: it is no longer a view *)
+Definition views_after_error (o : op) (views : list bool) (cur : ctable) : list bool :=
+  match o with
+  | OSort f => match nth_error cur f with
+               | Some (CBase (ColRag (RNum _) _ _)) => set_false f views
+               | _ => views
+               end
+  | _ => views
+  end.
+Fixpoint lazy_pred (views : list bool) (cur : ctable) (p : list op) (os : list obs) : list bool :=
   match p, os with
   | o :: p', ob :: os' =>
       match o with
-      | OIndex _ => (is_err ob || (existsb (fun b => b) views && negb fix9_lazy_index)) :: lazy_pred views p' os'
-      | _ => is_err ob :: lazy_pred (match ob with OTab cols _ _ => next_views o views cols | _ => views end) p' os'
+      | OIndex _ => (is_err ob || (existsb (fun b => b) views && negb fix9_lazy_index)) :: lazy_pred views cur p' os'
+      | _ => is_err ob ::
+             match ob with
+             | OTab cols _ _ => lazy_pred (next_views o views cols) cols p' os'
+             | OErrO => lazy_pred (views_after_error o views cur) cur p' os'
+             | _ => lazy_pred views cur p' os'
+             end
       end
   | _, _ => []
   end.
+Definition obs_cols (o : obs) : ctable := match o with OTab c _ _ => c | _ => [] end.
 Definition model_ok (c : case) : bool :=
   let m0 := m_construct (k_sch c) (k_a0 c) in
   let m1 := m_construct (k_sch c) (k_a1 c) in
@@ -205,4 +221,4 @@ Definition model_ok (c : case) : bool :=
      end
   && obs_eqb (k_t0 c) (k_t0_after c) && obs_eqb (k_t1 c) (k_t1_after c) && k_unchanged c
   && obs_eqb (final_obs (k_t0 c) (k_steps c)) (k_lazy c)
-  && list_eqb Bool.eqb (lazy_pred (map (fun _ => false) (k_sch c)) (k_prog c) (k_steps c)) (k_lazy_errs c).
+  && list_eqb Bool.eqb (lazy_pred (map (fun _ => false) (k_sch c)) (obs_cols (k_t0 c)) (k_prog c) (k_steps c)) (k_lazy_errs c).
